@@ -294,24 +294,32 @@ func runOp(in *graphs.Instance, th *starlark.Thread, op COp) (out []Res) {
 			attr, _ := v.(starlark.HasAttrs).Attr(name)
 			_, err = starlark.Call(th, attr, args, nil)
 		} else {
+			err = fmt.Errorf("harness: %s does not apply to %s", m.N, v.Type())
 			switch x := v.(type) {
 			case *starlark.List:
-				if m.N == "GoLAppend" {
+				switch m.N {
+				case "GoLAppend":
 					err = x.Append(in.Value(*m.V))
-				} else {
+				case "GoLClear":
 					err = x.Clear()
 				}
 			case *starlark.Dict:
-				if m.N == "GoDSetKey" {
+				switch m.N {
+				case "GoDSetKey":
 					err = x.SetKey(starlark.MakeInt64(*m.K), in.Value(*m.V))
-				} else {
+				case "GoDDelete":
 					_, _, err = x.Delete(starlark.MakeInt64(*m.K))
+				case "GoDClear":
+					err = x.Clear()
 				}
 			case *starlark.Set:
-				if m.N == "GoSInsert" {
+				switch m.N {
+				case "GoSInsert":
 					err = x.Insert(starlark.MakeInt64(*m.K))
-				} else {
+				case "GoSDelete":
 					_, err = x.Delete(starlark.MakeInt64(*m.K))
+				case "GoSClear":
+					err = x.Clear()
 				}
 			}
 		}
@@ -636,6 +644,229 @@ func scenarioProgInit(seed uint64, n, rounds int) {
 	}
 }
 
+// ------------------------------------------------------------------ footprints
+//
+// Sequential, deterministic: what does each operation of the repertoire WRITE?
+// Observed through the verif hooks (frozen flag, itercount) and the contents of
+// every described object before and after the operation, on graphs that contain
+// frozen objects (reachable from the globals) and unfrozen ones (host values and
+// locals the module does not keep).  Compared with the write footprints of
+// C05.Model; a write to an object whose flag was set is a violation by itself.
+
+type objState struct {
+	frozen   int // -1: no flag
+	iter     int // -1: no counter
+	contents []Val
+}
+
+func stateOf(in *graphs.Instance) []objState {
+	out := make([]objState, len(in.Objs))
+	for id, v := range in.Objs {
+		st := objState{frozen: -1, iter: -1}
+		if v != nil {
+			if f, ok := starlark.VerifFrozen(v); ok {
+				st.frozen = b2i(f)
+			} else if s, ok := v.(*starlarkstruct.Struct); ok {
+				st.frozen = b2i(starlarkstruct.VerifFrozen(s))
+			}
+			if n, ok := starlark.VerifIterCount(v); ok {
+				st.iter = int(n)
+			}
+			st.contents = in.Contents(id)
+		}
+		out[id] = st
+	}
+	return out
+}
+
+func b2i(b bool) int {
+	if b {
+		return 1
+	}
+	return 0
+}
+
+type Write struct {
+	Node   int  `json:"node"`
+	Field  int  `json:"field"`  // 0 frozen flag, 1 itercount, 2 contents
+	Frozen bool `json:"frozen"` // the object's flag was set before the operation
+}
+
+func diffStates(a, b []objState) []Write {
+	ws := []Write{}
+	for id := range a {
+		fr := a[id].frozen == 1
+		if a[id].frozen != b[id].frozen {
+			ws = append(ws, Write{id, 0, fr})
+		}
+		if a[id].iter != b[id].iter {
+			ws = append(ws, Write{id, 1, fr})
+		}
+		if !graphs.EqVals(a[id].contents, b[id].contents) {
+			ws = append(ws, Write{id, 2, fr})
+		}
+	}
+	return ws
+}
+
+// FStep: one primitive step (a constructor of C05.Footprint.op) and what it wrote.
+type FStep struct {
+	Op     string  `json:"op"` // len index contains begin next done compare hash print call store mutate
+	Node   int     `json:"node"`
+	I      int     `json:"i,omitempty"`
+	A      int64   `json:"a,omitempty"`
+	B      int     `json:"b,omitempty"`
+	M      *Mop    `json:"m,omitempty"`
+	Writes []Write `json:"writes"`
+}
+
+type FSeq struct {
+	Steps []FStep `json:"steps"`
+}
+
+type FOut struct {
+	Kind     string       `json:"kind"`
+	Seed     uint64       `json:"seed"`
+	Round    int          `json:"round"`
+	Desc     *graphs.Desc `json:"desc"`
+	Src      string       `json:"src"`
+	Seqs     []FSeq       `json:"seqs"`
+	Position string       `json:"position,omitempty"` // a problem with the lazily decoded line table
+	Steps    int          `json:"steps"`
+}
+
+func scenarioFootprints(seed uint64, rounds int) {
+	for round := 0; round < rounds; round++ {
+		r := hx.NewRand(seed*104729 + uint64(round))
+		d := graphs.Gen(r)
+		src := d.Source()
+		o := FOut{Kind: "fp", Seed: seed, Round: round, Desc: d, Src: src}
+		probe := graphs.Instantiate(d, src)
+		printable := map[int]bool{}
+		for id := range d.Nodes {
+			printable[id] = true
+		}
+		for id := range d.Nodes { // str() of a value that reaches a struct, function or method may not terminate on cycles
+			seen := map[int]bool{}
+			var visit func(x int)
+			visit = func(x int) {
+				if seen[x] {
+					return
+				}
+				seen[x] = true
+				nd := d.Nodes[x]
+				if nd.Kind == "struct" || nd.Kind == "func" || nd.Kind == "bound" {
+					printable[id] = false
+				}
+				for _, e := range nd.Elems {
+					if e.IsRef() {
+						visit(int(e[1]))
+					}
+				}
+			}
+			visit(id)
+		}
+		for id, nd := range d.Nodes {
+			if probe.Objs[id] == nil {
+				continue
+			}
+			container := nd.Kind == "list" || nd.Kind == "dict" || nd.Kind == "set" || nd.Kind == "tuple"
+			var plans [][]FStep
+			if container {
+				plans = append(plans,
+					[]FStep{{Op: "len", Node: id}, {Op: "contains", Node: id, A: int64(r.Intn(30))}},
+					[]FStep{{Op: "begin", Node: id}, {Op: "next"}, {Op: "begin", Node: id}, {Op: "next"}, {Op: "done"}, {Op: "next"}, {Op: "done"}},
+					[]FStep{{Op: "begin", Node: id}, {Op: "done"}, {Op: "store", Node: id}, {Op: "begin", Node: id}, {Op: "done"}})
+			}
+			if nd.Kind == "list" || nd.Kind == "tuple" {
+				plans = append(plans, []FStep{{Op: "index", Node: id, I: r.Intn(len(nd.Elems) + 1)}})
+			}
+			other := r.Intn(len(d.Nodes))
+			if probe.Objs[other] != nil {
+				plans = append(plans, []FStep{{Op: "compare", Node: id, B: other}, {Op: "hash", Node: id}})
+			}
+			if printable[id] {
+				plans = append(plans, []FStep{{Op: "print", Node: id}})
+			}
+			if nd.Kind == "func" {
+				plans = append(plans, []FStep{{Op: "call", Node: id}, {Op: "store", Node: id}, {Op: "call", Node: id}})
+			}
+			plans = append(plans, []FStep{{Op: "store", Node: id}, {Op: "store", Node: id}})
+			var ms []*Mop
+			switch nd.Kind {
+			case "list":
+				ms = []*Mop{{N: "GoLAppend", V: pv(graphs.Atom(7))}, {N: "GoLClear"}}
+			case "dict":
+				ms = []*Mop{{N: "GoDSetKey", K: i64(555), V: pv(graphs.Atom(7))}, {N: "GoDDelete", K: i64(10)}, {N: "GoDClear"}}
+			case "set":
+				ms = []*Mop{{N: "GoSInsert", K: i64(555)}, {N: "GoSDelete", K: i64(20)}, {N: "GoSClear"}}
+			}
+			for _, m := range ms {
+				plans = append(plans, []FStep{{Op: "mutate", Node: id, M: m}, {Op: "begin", Node: id}, {Op: "mutate", Node: id, M: m}, {Op: "done"}})
+			}
+			for _, plan := range plans {
+				in := graphs.Instantiate(d, src)
+				th := &starlark.Thread{Name: "fp"}
+				var its []starlark.Iterator
+				seq := FSeq{}
+				for _, st := range plan {
+					before := stateOf(in)
+					var v starlark.Value
+					if st.Op != "next" && st.Op != "done" {
+						v = in.Objs[st.Node]
+					}
+					switch st.Op {
+					case "begin":
+						if it := starlark.Iterate(v); it != nil {
+							its = append(its, it)
+						}
+					case "next":
+						if len(its) > 0 {
+							var x starlark.Value
+							its[len(its)-1].Next(&x)
+						}
+					case "done":
+						if len(its) > 0 {
+							its[len(its)-1].Done()
+							its = its[:len(its)-1]
+						}
+					case "call":
+						runOp(in, th, COp{N: "call", Node: st.Node, B: 0, I: 0})
+					case "mutate":
+						runOp(in, th, COp{N: "mutate", Node: st.Node, M: st.M, Via: "go"})
+					default:
+						runOp(in, th, COp{N: st.Op, Node: st.Node, I: st.I, A: st.A, B: st.B})
+					}
+					st.Writes = diffStates(before, stateOf(in))
+					seq.Steps = append(seq.Steps, st)
+					o.Steps++
+				}
+				o.Seqs = append(o.Seqs, seq)
+			}
+		}
+		// the Once cell: decoded by the first failing call, never again
+		in := graphs.Instantiate(d, src)
+		for id, nd := range d.Nodes {
+			fn, ok := in.Objs[id].(*starlark.Function)
+			if !ok || nd.Kind != "func" {
+				continue
+			}
+			if starlark.VerifLNTDecoded(fn) {
+				continue // decoded by an earlier failure of the same code
+			}
+			th := &starlark.Thread{Name: "pos"}
+			_, err := starlark.Call(th, fn, starlark.Tuple{starlark.MakeInt(99), starlark.String("index"), starlark.Tuple{}, starlark.None}, nil)
+			if err == nil {
+				o.Position = fmt.Sprintf("node %d: the call was expected to fail", id)
+			} else if !starlark.VerifLNTDecoded(fn) {
+				o.Position = fmt.Sprintf("node %d: a failing call did not decode the line table", id)
+			}
+		}
+		hx.Emit(o)
+		hx.Flush()
+	}
+}
+
 // ------------------------------------------------------------------------ main
 
 var raceFn = regexp.MustCompile(`(?m)^(?:Write|Read|Previous write|Previous read) at 0x[0-9a-f]+ by (?:goroutine \d+|main goroutine):\n\s+(\S+)\(\)`)
@@ -657,6 +888,8 @@ func main() {
 			scenarioPosition(*seed, *n, *rounds)
 		case "proginit":
 			scenarioProgInit(*seed, *n, *rounds)
+		case "footprints":
+			scenarioFootprints(*seed, *rounds)
 		}
 		hx.Flush()
 		return
@@ -676,12 +909,14 @@ func main() {
 	if *tier == "quick" {
 		jobs = []job{{"values", 2, 10, 14, true, 0}, {"values", 8, 8, 12, false, 0}, {"values", 32, 3, 10, false, 0},
 			{"position", 2, 6, 0, false, 0}, {"position", 8, 6, 0, false, 0}, {"position", 32, 3, 0, false, 0},
-			{"proginit", 2, 4, 0, false, 0}, {"proginit", 8, 4, 0, false, 0}, {"proginit", 32, 2, 0, false, 0}}
+			{"proginit", 2, 4, 0, false, 0}, {"proginit", 8, 4, 0, false, 0}, {"proginit", 32, 2, 0, false, 0},
+			{"footprints", 1, 25, 0, false, 0}}
 	} else {
 		jobs = []job{{"values", 2, 400, 16, true, 0}, {"values", 3, 160, 14, true, 0}, {"values", 8, 320, 14, false, 0}, {"values", 32, 120, 12, false, 0},
 			{"values", 8, 160, 14, false, 2}, {"values", 4, 160, 14, false, 4},
 			{"position", 2, 240, 0, false, 0}, {"position", 8, 240, 0, false, 0}, {"position", 32, 100, 0, false, 0}, {"position", 8, 120, 0, false, 2},
-			{"proginit", 2, 160, 0, false, 0}, {"proginit", 8, 160, 0, false, 0}, {"proginit", 32, 60, 0, false, 0}, {"proginit", 8, 80, 0, false, 2}}
+			{"proginit", 2, 160, 0, false, 0}, {"proginit", 8, 160, 0, false, 0}, {"proginit", 32, 60, 0, false, 0}, {"proginit", 8, 80, 0, false, 2},
+			{"footprints", 1, 600, 0, false, 0}}
 	}
 	w := os.Stdout
 	for _, j := range jobs {
